@@ -564,6 +564,20 @@ fn spec_for(id: &str, tier: Tier) -> Spec {
             plans.extend(overlay_plans(tier));
             plans.extend(session_plans(tier));
             plans.extend(residue_plans(tier, true, true));
+            // siblings `x` and `x_wo` below a lower-layer directory: the deletion marker of `x_wo`
+            // is `x_wo_wo` (seeded change C05l).  `x_wo` is only ever a FILE here: as a directory
+            // its marker directory `.whiteout/d/x_wo/` is the marker file of `x` (reserved-name
+            // collision by design), so the alphabet never creates a directory at a `*_wo` path
+            // (`Alphabet::all_ops`) and the initial layerings with such a directory are left out.
+            // For this check only: C10's bookkeeping oracle takes every `*_wo` component for a marker
+            let wo2 = Universe::new("U_wo2{d,d/x,d/x_wo}", &["/d", "/d/x", "/d/x_wo"]);
+            let mut wp = populated(mem2(), Order::Asc, alphabet(wo2.clone(), &W1, 1, false), &wo2, false);
+            wp.inits.retain(|i| {
+                i.init
+                    .iter()
+                    .all(|(_, l)| l.iter().all(|(q, n)| !(q.ends_with("_wo") && matches!(n, crate::model::Node::Dir))))
+            });
+            plans.push(wp);
             Spec {
                 domain: Domain::Unrestricted {
                     root_removal: false,
